@@ -73,6 +73,17 @@ def draw_cfg(st):
             cfg["spawn_kinds"] = ["remote", "preserve", "thread"]
             w_ops = [6, 6, 1, 2, 1, 0, 1]
     cfg["w_ops"] = w_ops
+    # re-entry of context()/run() of open actions; exception extractors registered before and during the run
+    cfg["w_reenter"] = st.choose(3, "reenter")
+    cfg["w_xreg"] = st.choose(2, "xreg")
+    cfg["xreg_fields_only"] = True        # fault-free configuration: no raising extractors
+    cfg["extractable"] = ["ValueError", "AppError", "AppSubError", "OSError", "KeyError", "Exception", "AppBase"]
+    ex = []
+    for _ in range(st.choose(3, "n-extractors")):
+        cname = cfg["extractable"][st.choose(len(cfg["extractable"]), "xcls")]
+        if cname not in [c for c, _m in ex]:
+            ex.append([cname, "fields"])
+    cfg["extractors"] = ex
     return cfg
 
 
@@ -83,6 +94,7 @@ def setup(rc, interp):
     rc.tap = Tap(rc)
     rc.fd = e.FileDestination(file=f)
     e.add_destinations(rc.fd, rc.tap)
+    rc.setup_extractors(rc.cfg.get("extractors", []))
 
 
 def run_one(seed, dec):
